@@ -70,9 +70,10 @@ def gen_plan(wl, fr, idx):
                         'return_samples': wl.random() < 0.6}
         plan['prefit'] = wl.random() < 0.4
     plan['n_jobs'] = wl.choice(sorted({1, 2, 3, max(1, R - 1), R, R + 1, 2 * R + 1}) + [-1])
-    if wl.random() < 0.2:
-        plan['array_variant'] = wl.choice(('fortran', 'strided', 'f32'))
+    if wl.random() < 0.25:
+        plan['array_variant'] = wl.choice(('fortran', 'strided', 'f32', 'swapview', 'revview'))
     plan['positional'] = wl.random() < 0.3          # documented parameter order is API too
+    plan['precall'] = entry == 'function' and wl.random() < 0.25
     plan['f_range_list'] = wl.random() < 0.2
     plan['fs_float'] = wl.random() < 0.2
     plan['progress'] = wl.choice((None, None, 'tqdm', 'tqdm.notebook'))
@@ -108,6 +109,29 @@ def method_of(settings):
     return settings.get('burst_method', 'cycles')
 
 
+def _scramble(kw):
+    """Earlier values of the caller's option object(s): entries rotated, centre extremum flipped."""
+    dicts = kw if isinstance(kw, list) else [kw]
+    if isinstance(kw, list) and len(kw) > 1:
+        kw[:] = kw[1:] + kw[:1]
+    for d in {id(x): x for x in dicts}.values():
+        d['center_extrema'] = 'trough' if d.get('center_extrema', 'peak') == 'peak' else 'peak'
+
+
+def _restore(kw, final):
+    """In-place edit back to the present values (same objects, new contents)."""
+    if isinstance(kw, list):
+        if len(kw) > 1:
+            kw[:] = kw[-1:] + kw[:-1]
+        pairs = {id(d): (d, f) for d, f in zip(kw, final)}
+        for d, f in pairs.values():
+            d.clear()
+            d.update(f)
+    else:
+        kw.clear()
+        kw.update(final)
+
+
 def _variant(arr, v):
     """Other memory layouts / dtypes of the same values (a seeded subset of runs)."""
     if v == 'fortran':
@@ -118,6 +142,10 @@ def _variant(arr, v):
         return base[..., 1::2]
     if v == 'f32':
         return arr.astype(np.float32)
+    if v == 'swapview':                      # first two axes permuted in memory, logical shape unchanged
+        return np.swapaxes(np.ascontiguousarray(np.swapaxes(arr, 0, 1)), 0, 1)
+    if v == 'revview':                       # negative stride along the first axis
+        return arr[::-1].copy()[::-1]
     return arr
 
 
@@ -166,6 +194,16 @@ def execute(plan, tape):
                                     if opt['list'][a] == opt['list'][b]:
                                         kw[a] = kw[b]
                                         break
+                    if plan.get('precall') and kw is not None:
+                        # the caller used the very same option object(s) in an earlier call and edited
+                        # them in place since: the result must reflect their present values
+                        final = copy.deepcopy(kw)
+                        _scramble(kw)
+                        try:
+                            compute_features_2d(sigs[::-1].copy(), fs, f_range, kw, 0, plan['return_samples'], 1, None)
+                        except Exception:
+                            pass        # nothing is demanded of the earlier call
+                        _restore(kw, final)
                     if plan.get('positional'):
                         out = compute_features_2d(sigs, fs, f_range, kw, 0, plan['return_samples'],
                                                   plan['n_jobs'], plan['progress'])
@@ -222,6 +260,8 @@ def execute(plan, tape):
         res.stats['probe.single_row'] += 1
     if plan.get('prefit'):
         res.stats['probe.object_refit'] += 1
+    if plan.get('precall') and plan.get('options'):
+        res.stats['probe.earlier_call_with_same_option_objects'] += 1
     if plan.get('options') and 'list' in (plan.get('options') or {}) and len(
             {repr(sorted(o.items())) for o in plan['options']['list']}) < R:
         res.stats['probe.list_with_repeated_option_sets'] += 1
@@ -344,7 +384,7 @@ def shrink(plan):
     for key, val in (('n_jobs', 1), ('n_jobs', 2), ('progress', None), ('tqdm', 'absent'),
                      ('return_samples', True), ('prefit', False), ('alias_equal', False),
                      ('array_variant', None), ('positional', False), ('f_range_list', False),
-                     ('fs_float', False)):
+                     ('fs_float', False), ('precall', False)):
         if key in plan and plan[key] != val:
             p = copy.deepcopy(plan)
             p[key] = val
